@@ -252,6 +252,7 @@ main(int argc, char *argv[])
 			else if (!strcmp(k, "diskfull_from")) sim_cfg.diskfull_from = atol(v);
 			else if (!strcmp(k, "shortw_seed")) sim_cfg.shortw_seed = strtoull(v, NULL, 10);
 			else if (!strcmp(k, "shortw_pct")) sim_cfg.shortw_pct = atoi(v);
+			else if (!strcmp(k, "close_eintr_pct")) sim_cfg.close_eintr_pct = atoi(v);
 			else if (!strcmp(k, "readdir")) sim_cfg.readdir_seed = strtoull(v, NULL, 10);
 			else if (!strcmp(k, "sched_seed")) sched_seed = strtoull(v, NULL, 10);
 			else if (!strcmp(k, "strategy")) strategy = atoi(v);
